@@ -1,6 +1,7 @@
 package main
 
 import (
+	"strings"
 	"sort"
 	"math/rand"
 	"bytes"
@@ -317,6 +318,26 @@ func genC20pass(r *Run) int {
 		o := nd.opt
 		evals += exerciseC20(r, subject{fmt.Sprintf("dhcpv6 constructed option %d", o.Code()), reflect.ValueOf(o), func() []byte { return safeToBytes(o) }, func() string { return dumpLine(dumpOpt(o)) }}, maxSeq)
 	}
+	// constructed values that hold an item which cannot be encoded (64 KiB or more, where the length field is 16 bits)
+	// between items that can: encoding skips or truncates it - without touching the value
+	{
+		big := strings.Repeat("x", 1<<16)
+		vals := []dhcpv6.Option{
+			dhcpv6.OptBootFileParam("first=1", big, "last=3"),
+			dhcpv6.OptBootFileParam(big, "only"),
+			&dhcpv6.OptUserClass{UserClasses: [][]byte{[]byte("a"), []byte(big), []byte("c")}},
+			&dhcpv6.OptVendorClass{EnterpriseNumber: 9, Data: [][]byte{[]byte("a"), []byte(big), []byte("c")}},
+			dhcpv6.OptBootFileURL(big),
+		}
+		for _, o := range vals {
+			o := o
+			evals += exerciseC20(r, subject{fmt.Sprintf("dhcpv6 constructed option %d holding an oversized item", o.Code()), reflect.ValueOf(o), func() []byte { return safeToBytes(o) }, func() string { return fmt.Sprint(len(dumpLine(dumpOpt(o)))) + trunc(dumpLine(dumpOpt(o)), 200) }}, maxSeq)
+			m6, _ := dhcpv6.NewMessage()
+			m6.TransactionID = dhcpv6.TransactionID{1, 2, 3}
+			m6.AddOption(o)
+			evals += exerciseC20(r, subject{fmt.Sprintf("DHCPv6 message with option %d holding an oversized item", o.Code()), reflect.ValueOf(m6), func() []byte { return safeBytes6(m6) }, nil}, 2)
+		}
+	}
 	// label sets and DUIDs
 	for i := 0; i < r.N(100, 1500); i++ {
 		names, w := r.validNames()
@@ -399,4 +420,14 @@ func (r *Run) randRoutes() []*dhcpv4.Route {
 		out = append(out, &dhcpv4.Route{Dest: &net.IPNet{IP: ip, Mask: net.CIDRMask(r.Rng.Intn(33), 32)}, Router: gw})
 	}
 	return out
+}
+
+
+func safeBytes6(m dhcpv6.DHCPv6) (b []byte) {
+	defer func() {
+		if recover() != nil {
+			b = nil
+		}
+	}()
+	return m.ToBytes()
 }
